@@ -66,6 +66,30 @@ def consts(repo):
 
 def constants(chk, repo):
     ci, ev, K = consts(repo)
+    # the layout constants are class constants: nothing in the package
+    # assigns one of them on an instance or a subclass (a per-instance
+    # MAXSIZE takes the frames of one code path out of the limits
+    # established here)
+    names = ("MAXSIZE", "ETHERNET_HEADER", "PACKET_HEADER", "PACKET_INDEX",
+             "DATAGRAM_HEADER", "DATAGRAM_TAIL")
+    stores = []
+    for m in repo.production_modules():
+        for x in ast.walk(m.tree):
+            if isinstance(x, ast.Attribute) and x.attr in names and \
+                    isinstance(x.ctx, (ast.Store, ast.Del)):
+                stores.append(x)
+            elif isinstance(x, ast.Call) and (dotted(x.func) or "") == \
+                    "setattr" and len(x.args) >= 2 and str_const(
+                        x.args[1]) in names:
+                stores.append(x)
+    for sub in repo.subclasses(ci.qualname):
+        if sub is not ci:
+            stores += [sub.attr_stmts[n_] for n_ in names
+                       if n_ in sub.attrs]
+    chk.ob("R11.1", P, "the layout constants are defined once, on Packet",
+           not stores, stores[0] if stores else ci.node,
+           f"`{unparse(stores[0])[:60]}` redefines one of them" if stores
+           else "no instance or subclass re-binds them")
     asm = repo.func(P + ".assemble")
     chk.analysed(P + ".assemble")
     packs = [c for c in calls_in(asm) if dotted(c.func) == "pack"]
